@@ -41,6 +41,7 @@ class Result:
         self.ops = None
         self.sample = None
         self.wall = 0.0
+        self.alloc_count = None
 
 
 _REGISTRY = {}
@@ -100,9 +101,9 @@ def sim_case(case, res, body, session_kw=None):
     if died != "hang":
         key = crash_key(rc, err)
         if key is not None:
-            S.viol.append(("crash/" + key, err[:3500]))
+            S.viol.append((S.key_prefix + "crash/" + key, err[:3500]))
         elif died == "died":
-            S.viol.append(("crash/daemon-vanished", err[-1000:]))
+            S.viol.append((S.key_prefix + "crash/daemon-vanished", err[-1000:]))
     res.viol = S.viol
     res.stats = S.stats
     res.sigs = S.sigs
